@@ -29,6 +29,19 @@
 (* property layer differ only when a loss uses a sibling output of the     *)
 (* multi-output op that produced a feature (the statement is ambiguous     *)
 (* there: such scenarios are flagged `ambig`, counted, give no verdict).   *)
+(*                                                                         *)
+(* DTYPES.  "Leaf tensor requiring grad" is a statement about              *)
+(* requires_grad, not about the element type: float32, float64, complex64  *)
+(* and complex128 tensors can all require grad.  Every program is therefore *)
+(* explored with every assignment of an element type to its user tensors   *)
+(* (DTAssignments); graph, walk and default sets do not depend on it       *)
+(* (they are computed before the assignment is chosen), the exported       *)
+(* scenario carries it, the replay realises it.  The only thing the type   *)
+(* decides is whether a call is inside the universe at all: the parameters *)
+(* whose Jacobians are aggregated TOGETHER (inputs of backward, shared     *)
+(* parameters of mtl_backward) form one matrix and must have one element   *)
+(* type (torch refuses a .grad of another type) - InUniverse.  Task        *)
+(* parameters, constants and unreachable leaves are unconstrained.         *)
 (***************************************************************************)
 EXTENDS Integers, Sequences, FiniteSets, TLC, Json
 
@@ -36,6 +49,8 @@ CONSTANTS MaxN,        \* tensors per program (leaves included)
           MaxLeaves,   \* leaves per program
           MaxFeats,    \* features per mtl_backward call
           MaxLosses,   \* losses per mtl_backward call
+          LeafDTs,     \* element types of the user tensors that require grad
+          ConstDTs,    \* element types of the user tensors that do not
           SampleMod, SamplePick   \* scenario export: 1 out of SampleMod by content hash
 
 Range(s) == {s[i] : i \in DOMAIN s}
@@ -350,7 +365,19 @@ Facts(gn, GG, c) ==
          \* a non-feature tensor shares its grad_fn with a feature (sibling output of a multi-output op)
          sibling |-> \E u \in 1..Len(P) : u \notin c.feats /\ gn[u] # 0 /\ gn[u] \in NodesOf(gn, c.feats)]
 
-Scenario(c, f) == [prog |-> P, fn |-> c.fn, tensors |-> c.tensors, feats |-> c.feats, losses |-> c.losses,
+\* ---- element types of the user tensors (leaves come first in a program: the domain is 1..nl)
+UserIdx(Q) == {i \in 1..Len(Q) : Q[i].k \in LeafKinds}
+DTAssignments(Q) == {d \in [UserIdx(Q) -> LeafDTs \cup ConstDTs] :
+                        \A i \in UserIdx(Q) : d[i] \in (IF Q[i].k = "leaf" THEN LeafDTs ELSE ConstDTs)}
+\* the parameters aggregated together have one element type (f.gs[1] = inputs / shared_params);
+\* a call whose default sets overlap is rejected before anything is differentiated
+InUniverse(f, d) == f.overlap \/ \A i, j \in f.gs[1] : d[i] = d[j]
+DTCode(dt) == CASE dt = "f64" -> 0 [] dt = "f32" -> 1 [] dt = "c128" -> 2 [] OTHER -> 3
+DTHash(d) == 43 * SumSeq([i \in 1..Len(P) |-> IF i \in DOMAIN d THEN (2 * i + 1) * DTCode(d[i]) ELSE 0])
+
+Scenario(c, f, d) ==
+                  [prog |-> P, fn |-> c.fn, tensors |-> c.tensors, feats |-> c.feats, losses |-> c.losses,
+                   dt |-> [i \in 1..Len(P) |-> IF i \in DOMAIN d THEN d[i] ELSE "-"],
                    inputs |-> IF c.fn = "backward" THEN f.gs[1] ELSE {},
                    shared |-> IF c.fn = "mtl" THEN f.gs[1] ELSE {},
                    tasks  |-> IF c.fn = "mtl" THEN [i \in 1..Len(c.losses) |-> f.gs[i + 1]] ELSE <<>>,
@@ -369,17 +396,25 @@ AtProgram == pc = "Build" /\ alljobs = <<>>
 \* C12 on the model: the default sets are the leaves that matter - the set a defaulted call uses
 \* for `inputs` / `shared_params` always, the per-task sets unless the program is ambiguous (a loss
 \* uses a sibling output of a feature's multi-output op); a default set for tensors that require
-\* grad is never empty.  Every (program, call) is exported from here, once.
+\* grad is never empty - whatever the element types of the user tensors (the sets are fixed before
+\* the assignment d is drawn; complex leaves are leaves).  Every (program, call, element-type
+\* assignment inside the universe) is exported from here, once.
 DefaultsAreTheLeavesThatMatter ==
     AtProgram =>
         LET gn == GN(P)
             GG == GraphOf(P)
             ph == ProgHash
+            DA == DTAssignments(P)
         IN  \A c \in Calls(P) :
-               LET f == Facts(gn, GG, c) IN
+               LET f == Facts(gn, GG, c)
+                   h == ph + ScnHash(c)
+               IN
                /\ f.gs[1] = f.ts[1]
                /\ f.gs[1] # {}
                /\ (~f.ambig => f.gs = f.ts)
                /\ (f.ambig => f.sibling)
-               /\ (((ph + ScnHash(c)) % SampleMod) = SamplePick) => PrintT(<<"SCN", ToJson(Scenario(c, f))>>)
+               /\ \E d \in DA : InUniverse(f, d)
+               /\ \A d \in DA :
+                     (InUniverse(f, d) /\ ((h + DTHash(d)) % SampleMod) = SamplePick)
+                         => PrintT(<<"SCN", ToJson(Scenario(c, f, d))>>)
 =============================================================================
